@@ -36,6 +36,39 @@ var RepoDir = func() string {
 	return "/repo"
 }()
 
+// HexProgram imports library packages with package-level variables (encoding/hex's digit table):
+// their initialisation is part of what a compilation - whole or streamed - must do every time.
+var HexProgram = Program{Name: "crafted/bytes+binary+hex+bits", Src: `package main
+
+import (
+	"bytes"
+	"encoding/binary"
+	"encoding/hex"
+	"math/bits"
+)
+
+func main(a, b [4]byte) (int, uint32, []byte) {
+	c := bytes.Compare(a[:], b[:])
+	x := binary.GetUint32(a[:])
+	y := bits.RotateLeft32(x, 3)
+	s := hex.EncodeToString(b[:])
+	return c, y, []byte(s)
+}
+`}
+
+// FailingProgram fails in code generation after its imports were initialised.
+const FailingProgram = `package main
+
+import (
+	"encoding/hex"
+)
+
+func main(a, b [2]byte) []byte {
+	s := hex.EncodeToString(a[:])
+	return undefinedFunction(s)
+}
+`
+
 // Program is one MPCL source.
 type Program struct {
 	Name string
@@ -236,6 +269,21 @@ func RunAbort(t *rt.Tape, c *Case, otKind int, pipe simnet.PipeConfig, trace, ab
 // parameters, the same env.Config, whose randomness source is then a scheduling point that
 // may stall. Its result is Out.Par.
 func RunPar(t *rt.Tape, c, par *Case, otKind int, pipe simnet.PipeConfig, trace, abortOnStall bool) *Out {
+	return RunPrelude(t, c, par, nil, 0, 0, otKind, pipe, trace, abortOnStall)
+}
+
+// RunPrelude is RunPar; with pre != nil the two processes first stream the program of pre over a
+// connection that is reset at byte cut of direction dir (0 = garbler to evaluator), give that
+// connection up, and then run the session proper over a fresh one (fresh OT objects and compiler
+// values, the same process): fail, then carry on. Only the session proper is reported.
+func RunPrelude(t *rt.Tape, c, par, pre *Case, dir int, cut uint64, otKind int, pipe simnet.PipeConfig, trace, abortOnStall bool) *Out {
+	return RunReuse(t, c, par, pre, dir, cut, false, otKind, pipe, trace, abortOnStall)
+}
+
+// RunReuse is RunPrelude; with failedCompileFirst the garbler's compiler.Compiler value has, before
+// it streams, compiled a program that fails in code generation (an operator's typo): fail, then
+// carry on with the same Compiler.
+func RunReuse(t *rt.Tape, c, par, pre *Case, dir int, cut uint64, failedCompileFirst bool, otKind int, pipe simnet.PipeConfig, trace, abortOnStall bool) *Out {
 	o := &Out{}
 	ea, eb := simnet.Pipe("G", "E", pipe)
 	o.EA = ea
@@ -256,6 +304,18 @@ func RunPar(t *rt.Tape, c, par *Case, otKind int, pipe simnet.PipeConfig, trace,
 		params2 = NewParams(simrand.Stream("G-garble"))
 		params2.Config = params.Config
 	}
+	var eaP, ebP *simnet.Endpoint
+	if pre != nil {
+		pp := pipe
+		pp.Record = false
+		f := simnet.Fault{Kind: simnet.FaultReset, Off: cut}
+		if dir == 0 {
+			pp.AB.Faults = []simnet.Fault{f}
+		} else {
+			pp.BA.Faults = []simnet.Fault{f}
+		}
+		eaP, ebP = simnet.Pipe("G0", "E0", pp)
+	}
 	var onStall func() bool
 	if abortOnStall {
 		onStall = func() bool {
@@ -271,11 +331,17 @@ func RunPar(t *rt.Tape, c, par *Case, otKind int, pipe simnet.PipeConfig, trace,
 	o.RR = rt.Run(rt.Config{Trace: trace, NoProgress: core.NoProgressDefault, OnStall: onStall, OnCrash: func(party string, _ *rt.Task) {
 		if party == "G" {
 			ea.Abort()
+			if eaP != nil {
+				eaP.Abort()
+			}
 			if ea2 != nil {
 				ea2.Abort()
 			}
 		} else if party == "E" {
 			eb.Abort()
+			if ebP != nil {
+				ebP.Abort()
+			}
 			if eb2 != nil {
 				eb2.Abort()
 			}
@@ -305,8 +371,27 @@ func RunPar(t *rt.Tape, c, par *Case, otKind int, pipe simnet.PipeConfig, trace,
 			})
 		}
 		rt.GoParty("G", "stream-garbler", func() {
+			if pre != nil {
+				c0 := p2p.NewConn(eaP)
+				_, _, err := compiler.New(NewParams(simrand.Stream("G-garble-0"))).Stream(c0, twopc.NewOT(otKind, simrand.Stream("G-ot-0")), "{data}", strings.NewReader(pre.Prog.Src), pre.In[0], pre.Sizes)
+				if err == nil {
+					c0.Close()
+				} else {
+					rt.Reach("fail-then-carry-on.garbler-saw-the-failure")
+				}
+				eaP.Abort()
+			}
 			conn := p2p.NewConn(ea)
-			o.GIO, o.GOut, o.GErr = compiler.New(params).Stream(conn, spy, "{data}", strings.NewReader(c.Prog.Src), c.In[0], c.Sizes)
+			cc := compiler.New(params)
+			if failedCompileFirst {
+				func() {
+					defer func() { recover() }()
+					if _, _, err := cc.Compile(FailingProgram, [][]int{{64}, {64}}); err != nil {
+						rt.Reach("fail-then-carry-on.compilation-failed-on-the-same-compiler")
+					}
+				}()
+			}
+			o.GIO, o.GOut, o.GErr = cc.Stream(conn, spy, "{data}", strings.NewReader(c.Prog.Src), c.In[0], c.Sizes)
 			o.GDone = true
 			if o.GErr != nil {
 				ea.Abort()
@@ -315,6 +400,16 @@ func RunPar(t *rt.Tape, c, par *Case, otKind int, pipe simnet.PipeConfig, trace,
 			}
 		})
 		rt.GoParty("E", "stream-evaluator", func() {
+			if pre != nil {
+				c0 := p2p.NewConn(ebP)
+				_, _, err := circuit.StreamEvaluator(c0, twopc.NewOT(otKind, simrand.Stream("E-ot-0")), pre.In[1], nil, false)
+				if err == nil {
+					c0.Close()
+				} else {
+					rt.Reach("fail-then-carry-on.evaluator-saw-the-failure")
+				}
+				ebP.Abort()
+			}
 			conn := p2p.NewConn(eb)
 			o.EIO, o.EOut, o.EErr = circuit.StreamEvaluator(conn, otE, c.In[1], nil, false)
 			o.EDone = true
@@ -382,6 +477,12 @@ func (w *c05) Run(t *rt.Tape, trace bool) *core.Result {
 		}
 	}
 	prog, probe := DrawProgram(t)
+	// One case in eight: the garbler's Compiler value first compiles a program that fails; half of
+	// those cases then stream a program that imports the same library package.
+	failedFirst := t.Choose(rt.SGen, 8) == 0
+	if failedFirst && t.Choose(rt.SGen, 2) == 0 {
+		prog, probe = HexProgram, [][]int{{64}, {64}}
+	}
 	c := Prepare(t, prog, probe)
 	if c.Discard != "" {
 		res.Discard = true
@@ -432,7 +533,30 @@ func (w *c05) Run(t *rt.Tape, trace bool) *core.Result {
 			res.Reach["concurrent-sessions"]++
 		}
 	}
-	o := RunPar(t, c, c2, kind, pipe, trace, false)
+	// One of the remaining cases in six: fail, then carry on - the processes first stream another
+	// program over a connection that is reset at a tape-chosen byte.
+	var pre *Case
+	var preDir int
+	var preCut uint64
+	if c2 == nil && !small && c.Circ.NumGates <= 20000 && t.Choose(rt.SGen, 6) == 0 {
+		prog0, probe0 := DrawProgram(t)
+		if x := Prepare(t, prog0, probe0); x.Discard == "" && x.Circ.NumGates <= 20000 && (kind != twopc.OTCO || int(x.Circ.Inputs[1].Type.Bits) <= 1500) {
+			pre, preDir = x, t.Choose(rt.SGen, 2)
+			preCut = uint64(t.Choose(rt.SGen, 1<<uint(2+t.Choose(rt.SGen, 16))))
+			smp.Second = fmt.Sprintf("preceded by a streaming session of %s whose connection is reset at byte %d of direction %d", prog0.Name, preCut, preDir)
+			if prog0.Name == "generated" {
+				smp.Second += "\n" + prog0.Src
+			}
+			res.Sample = smp
+			res.Reach["fail-then-carry-on"]++
+		}
+	}
+	if failedFirst {
+		res.Reach["fail-then-carry-on.failed-compilation-first"]++
+		smp.Second += " [the garbler's Compiler value first compiles a program that fails in code generation]"
+		res.Sample = smp
+	}
+	o := RunReuse(t, c, c2, pre, preDir, preCut, failedFirst, kind, pipe, trace, false)
 	core.Finish(res, o.RR)
 	res.Nontrivial = o.RR.Switches > 2
 	if c.Circ.NumWires > 65535 {
@@ -455,6 +579,13 @@ func (w *c05) Run(t *rt.Tape, trace bool) *core.Result {
 		name := prog.Name
 		if c2 != nil && strings.Contains(o.RR.Crashed[0].ID, "-par#") {
 			name = c2.Prog.Name
+		}
+		if pre != nil && !(o.GDone || o.EDone) {
+			// a crash while the faulted session may still have been running: only an undisturbed
+			// session is this property's business (and the known finding is keyed by program)
+			res.Discard = true
+			res.Reach["discard: a party crashed before the session proper ended (faulted prelude)"]++
+			return res
 		}
 		res.Fail = &core.Failure{Clause: "panic", Detail: core.CrashDetail(o.RR),
 			Key: fmt.Sprintf("panic|%s|%v", name, o.RR.Crashed[0].Panic)}
